@@ -119,6 +119,7 @@ static void apply_perturb(const Plan &p) {
 struct ThreadRun { const Scenario *s; const Plan *p; RunResult *r; };
 static void *thread_run_main(void *v) { ThreadRun *t = (ThreadRun *) v; t->s->exec(*t->p, *t->r); return nullptr; }
 static void exec_maybe_in_thread(const Scenario *s, const Plan &p, RunResult &r) {
+    begin_run();
     if (!p.cfg.geti("threadrun")) { s->exec(p, r); return; }
     // the plan is executed twice, in two successive threads (the first has exited before the second starts), so that one plan
     // carries the whole thread create/exit history and replays on its own
